@@ -1,1 +1,25 @@
-fn main() { let _ = vcommon::Ctx::from_args(); }
+mod policy;
+mod props;
+mod replica;
+mod scenario;
+mod txn;
+mod world;
+
+fn main() {
+    let ctx = vcommon::Ctx::from_args();
+    ctx.watchdog(ctx.pick(1500, 4 * 3600));
+    match ctx.prop.as_str() {
+        "C01" => props::run_c01(&ctx),
+        "C02" => props::run_c02(&ctx),
+        "C03" => props::run_c03(&ctx),
+        "C04" => props::run_c04(&ctx),
+        "C05" => props::run_c05(&ctx),
+        "C06" => props::run_c06(&ctx),
+        "C08" => props::run_c08(&ctx),
+        "C09" => props::run_c09(&ctx),
+        p => {
+            println!("INCONCLUSIVE vh-rt does not serve {p}");
+            std::process::exit(2);
+        }
+    }
+}
